@@ -17,22 +17,24 @@ func kindRuleTexts(r *Report) {
 
 func init() {
 	register(&propSpec{ID: "C01", Level: "other", Run: runC01,
-		Explain: otherNote + "C01: decided = altitude-to-index conversion floors (no truncation, no biased floor); one output per input point in input order; each index is labelled with the zoom of its own axis; the spatial-ID form is the extended form with h = v plus the canonical permutation; zoom and nil-point guards dominate success.",
+		Explain: otherNote + "C01: decided = altitude-to-index conversion floors (no truncation, no biased floor); one output per input point in input order; each index is labelled with the zoom of its own axis; the spatial-ID form is the extended form with h = v plus the canonical permutation; zoom and nil-point guards dominate success; no sign test of a vertical index has a negative side that can only fail.",
 		Canary: []CanaryExpect{
 			{Rule: "ROUND", Bad: "canaryBadTruncAlt", Good: "canaryGoodFloorAlt"},
 			{Rule: "MAPORDER", Bad: "canaryBadSkipAppend", Good: "canaryGoodMapLoop"},
 			{Rule: "GUARD", Bad: "canaryBadZoomGuard", Good: "canaryGoodZoomGuard"},
+			{Rule: "NEGF", Bad: "canaryBadNegF", Good: "canaryGoodNegF"},
 		}})
 	register(&propSpec{ID: "C03", Level: "other", Run: runC03,
-		Explain: otherNote + "C03: decided = vertical zoom-out floors; results pass a de-duplication on every success path; every output field is at the requested zoom of its own axis and axes are wired independently; the single-zoom form delegates with (zoom, zoom).",
+		Explain: otherNote + "C03: decided = vertical zoom-out floors; results pass a de-duplication on every success path; every output field is at the requested zoom of its own axis and axes are wired independently; the single-zoom form delegates with (zoom, zoom); no element of the input list reaches the result unparsed; packed integer map keys are injective over the documented index ranges.",
 		Canary: []CanaryExpect{
 			{Rule: "ROUND", Bad: "canaryBadQuoF", Good: "canaryGoodShiftF"},
 			{Rule: "ROUND", Bad: "canaryBadWrongFloorFix", Good: "canaryGoodFloorDiv"},
 			{Rule: "DISTINCT", Bad: "canaryBadNoUnique", Good: "canaryGoodUnique"},
 			{Rule: "KIND-CALL", Bad: "canaryBadSwapZoom", Good: "canaryGoodZoomCall"},
+			{Rule: "VERBATIM", Bad: "canaryBadVerbatim", Good: "canaryGoodVerbatim"},
 		}})
 	register(&propSpec{ID: "C04", Level: "other", Run: runC04,
-		Explain: otherNote + "C04: decided = the ancestor computation floors the vertical index; the result is de-duplicated; the unit zooms of the division are final per-axis maxima over all inputs (not a running maximum in use, not one element's zooms); no input, unit or group is dropped; an input is passed through unmerged only if it is coarser than the target on some axis and is a merge candidate otherwise (finite ordering enumeration over (hZoom vs target, vZoom vs target)); wrapper delegation.",
+		Explain: otherNote + "C04: decided = the ancestor computation floors the vertical index; the result is de-duplicated; the unit zooms of the division are final per-axis maxima over all inputs (not a running maximum in use, not one element's zooms); no input, unit or group is dropped; an input is passed through unmerged only if it is coarser than the target on some axis and is a merge candidate otherwise (finite ordering enumeration over (hZoom vs target, vZoom vs target)); wrapper delegation; no element of the input list reaches the result unparsed.",
 		Canary: []CanaryExpect{
 			{Rule: "ROUND", Bad: "canaryBadQuoF", Good: "canaryGoodShiftF"},
 			{Rule: "UNIT-ZOOM", Bad: "canaryBadUnitZoomPartial", Good: "canaryGoodUnitZoomFinal"},
@@ -67,6 +69,7 @@ func runC01(w *World, r *Report, tier string) {
 	ruleWrapper(w, r, wrapperSpec{Wrapper: "shape.GetSpatialIdsOnPoints", Extended: "shape.GetExtendedSpatialIdsOnPoints", ZoomArg: 1, ExtH: 1, ExtV: 2, IDsArg: -1, PassArgs: [][2]int{{0, 0}}})
 	ruleElementwise(w, r, "shape.GetExtendedSpatialIdsOnPoints", 0)
 	ruleFoldExact(w, r, cl)
+	ruleNegF(w, r, nil)
 	guardRows(w, r, "C01")
 }
 
@@ -100,6 +103,8 @@ func runC03(w *World, r *Report, tier string) {
 	}
 	ruleCacheKey(w, r, cl)
 	ruleNoSkip(w, r, "integrate.ChangeExtendedSpatialIdsZoom")
+	ruleVerbatim(w, r, "integrate.ChangeExtendedSpatialIdsZoom")
+	rulePackKey(w, r, nil)
 	guardRows(w, r, "C03")
 }
 
@@ -125,6 +130,7 @@ func runC04(w *World, r *Report, tier string) {
 	ruleNoSkip(w, r, "integrate.MergeExtendedSpatialIds")
 	ruleUnitZoom(w, r)
 	ruleCacheKey(w, r, cl)
+	ruleVerbatim(w, r, "integrate.MergeExtendedSpatialIds")
 	guardRows(w, r, "C04")
 }
 
